@@ -83,7 +83,7 @@ ENTRY = {
     'OUTER': 'OUTER', "'b'": 'b', "'a.b'": 'a.b',
     "!'a b'": 'a b', "!'a//b'": 'a//b', "!'/a'": '/a', "!'a/'": 'a/', '!5': 5, "!('a',)": ('a',),
     "!['a b']": ['a b'], '![5]': [5], '!TRUTH': 'TRUTH', "!['a','']": ['a', ''],
-    "!{'a':1}": {'a': 1}, '!0': 0, '!3.5': 3.5, "!b'a'": b'a',
+    "!{'a':1}": {'a': 1}, '!0': 0, '!3.5': 3.5, "!b'a'": b'a', "!'a\\n'": 'a\n', "!['a','b\\n']": ['a', 'b\n'],
 }
 VALID = [k for k in ENTRY if not k.startswith('!')]
 INVALID = [k for k in ENTRY if k.startswith('!')]
